@@ -76,6 +76,9 @@ VALUE_SOILS = {
     "VD": [(0.35, 0.10, 0.22, 0.41, 1200, 100), (0.35, 0.18, 0.32, 0.45, 300, 100), (5.0, 0.30, 0.45, 0.52, 40, 100)],
     "VS": [(0.3, 0.10, 0.22, 0.41, 1200, 100), (0.3, 0.20, 0.34, 0.46, 150, 100)],
     "VE": [(5.0, 0.30, 0.50, 0.50, 20, 100)],
+    # layer bottoms whose float sums fall just below the compartment bottoms (0.7 + 0.1 < 0.8, 0.1 + 0.2 > 0.3 in binary floating point)
+    "VF": [(0.7, 0.10, 0.20, 0.40, 500, 100), (0.1, 0.15, 0.30, 0.45, 100, 100), (5.0, 0.20, 0.35, 0.50, 50, 100)],
+    "VG": [(0.1, 0.10, 0.20, 0.40, 500, 100), (0.2, 0.15, 0.30, 0.45, 100, 100), (5.0, 0.20, 0.35, 0.50, 50, 100)],
 }
 TEXTURE_SOILS = {
     "T1": [(5.0, 40, 20, 2.5, 100)],
@@ -327,7 +330,7 @@ def run_case(job):
         signal.alarm(0)
     except CaseTimeout as exc:
         signal.alarm(0)
-        fr = [f for f in traceback.extract_tb(exc.__traceback__) if "/repo/aquacrop/" in f.filename]
+        fr = [f for f in traceback.extract_tb(exc.__traceback__) if "/aquacrop/" in f.filename and "site-packages" not in f.filename]
         where = f"{os.path.basename(fr[-1].filename)}:{fr[-1].name}" if fr else "?"
         fail(f"deepening|non-termination|{where}",
              "when the profile is deepened ... the profile ends below that depth (initialisation must terminate)",
@@ -343,7 +346,7 @@ def run_case(job):
         raise
     except Exception as exc:  # noqa: BLE001
         signal.alarm(0)
-        fr = [f for f in traceback.extract_tb(exc.__traceback__) if "/repo/aquacrop/" in f.filename]
+        fr = [f for f in traceback.extract_tb(exc.__traceback__) if "/aquacrop/" in f.filename and "site-packages" not in f.filename]
         where = f"{os.path.basename(fr[-1].filename)}:{fr[-1].name}" if fr else "outside"
         fail(f"initialisation|{type(exc).__name__}|{where}|iwc={ia[0]}/{ia[1]}",
              "the soil profile and initial water content are built as specified (initialisation must not raise for a valid specification)",
@@ -544,6 +547,8 @@ def build_cases(tier, seed):
     k = 0
     for (kind, s) in soils:
         dzs = ["default"] if s == "ac_TunisLocal" else list(DZ_LISTS)
+        if s in ("VF", "VG"):
+            dzs = ["d12x0.10", "d20x0.10", "fine"]     # float-boundary soils: only lists whose compartment bottoms coincide with the layer bottoms
         for dzn in dzs:
             for (c, z) in CROP_REPS:
                 for r in range(3):
